@@ -79,7 +79,12 @@ def _work(args):
     for line in lines:
         case = decode_case_line(line)
         r = _rng(seed, line)
-        obs = [run_one(case, r, seed)]
+        if case.get("out") == "dead":
+            obs = [run_one(case, r, seed, encoding=r.choice(lib.BROKEN_STDOUTS), variant="dead-stream")]
+            if obs[0]["observed"].startswith("internal:") and obs[0]["observed"].split(":")[1] in ("BrokenPipeError", "OSError"):
+                obs[0]["observed"] = "OSError"
+        else:
+            obs = [run_one(case, r, seed)]
         if opts.get("strip") and case["allowed"] == ["accept"]:
             obs.append(run_stripped(case, r, seed))
         if opts.get("encodings"):
